@@ -249,66 +249,49 @@ func (st *DelegationStore) AddToAddress(validatorAddress keys.Address, delegator
 }
 
 func (st *DelegationStore) MinusFromAddress(validatorAddress keys.Address, delegatorAddress keys.Address, coin balance.Amount) error {
-	// st_v_ operation
+	// all three amounts are checked before any of them is written: the allegation penalty calls this
+	// outside a transaction session, where an early return would leave the validator total reduced
+	// and the delegator amounts untouched
 
-	// take current total effective amount from total
+	// st_v_ : validator total
 	totalEffectiveCoin, err := st.GetValidatorAmount(validatorAddress)
 	if err != nil {
 		return err
 	}
-
-	// withdraw from total
 	newTotalEffectiveCoin, err := totalEffectiveCoin.Minus(coin)
 	if err != nil {
 		return err
 	}
 
-	// update a new total amount
-	err = st.SetValidatorAmount(validatorAddress, *newTotalEffectiveCoin)
-	if err != nil {
-		return err
-	}
-
-	// st_e_ operation
-
-	// take current validator-delegator effective amount
+	// st_e_ : validator-delegator amount
 	validatorDelegatedCoin, err := st.GetValidatorDelegationAmount(validatorAddress, delegatorAddress)
 	if err != nil {
 		return err
 	}
-
-	// withdraw from total
 	newvalidatorDelegatedCoin, err := validatorDelegatedCoin.Minus(coin)
 	if err != nil {
 		return err
 	}
 
-	// update a new vd effective amount
-	err = st.SetValidatorDelegationAmount(validatorAddress, delegatorAddress, *newvalidatorDelegatedCoin)
-	if err != nil {
-		return err
-	}
-
-	// st_d_e_ operation
-
-	// take current delegated effective amount
+	// st_d_e_ : delegator effective amount
 	delegatedEffectiveCoin, err := st.GetDelegatorEffectiveAmount(delegatorAddress)
 	if err != nil {
 		return err
 	}
-
-	// withdraw from total
 	newDelegatedEffectiveCoin, err := delegatedEffectiveCoin.Minus(coin)
 	if err != nil {
 		return err
 	}
 
-	// update a new vd effective amount
-	err = st.SetDelegatorEffectiveAmount(delegatorAddress, *newDelegatedEffectiveCoin)
+	err = st.SetValidatorAmount(validatorAddress, *newTotalEffectiveCoin)
 	if err != nil {
 		return err
 	}
-	return nil
+	err = st.SetValidatorDelegationAmount(validatorAddress, delegatorAddress, *newvalidatorDelegatedCoin)
+	if err != nil {
+		return err
+	}
+	return st.SetDelegatorEffectiveAmount(delegatorAddress, *newDelegatedEffectiveCoin)
 }
 
 func (st *DelegationStore) Unstake(validatorAddress keys.Address, delegatorAddress keys.Address, coin balance.Amount, height int64) error {
